@@ -40,6 +40,9 @@ fn paras_lossy(d: &deb822_lossless::lossy::Deb822) -> Value {
 pub fn dispatch(req: &Value) -> Value {
     match req["op"].as_str().unwrap_or("") {
         "deb822" => op_deb822(req),
+        "relations" => op_relations(req),
+        "total" => op_total(req),
+        "ext" => op_ext(req),
         other => json!({"error": format!("unknown op {}", other)}),
     }
 }
@@ -76,4 +79,153 @@ fn op_deb822(req: &Value) -> Value {
         Err(e) => json!({"ok": false, "err": e.to_string()}),
     });
     json!({"relaxed": relaxed, "strict": strict, "read": read, "read_relaxed": read_relaxed, "para": para, "lossy": lossy, "lossy_para": lossy_para})
+}
+
+fn rel_struct(r: &debian_control::lossless::relations::Relation) -> Value {
+    guarded(|| json!({
+        "name": r.name(),
+        "archqual": r.archqual(),
+        "version": r.version().map(|(c, v)| json!([c.to_string(), v.to_string()])),
+        "architectures": r.architectures().map(|it| it.collect::<Vec<String>>()),
+        "profiles": r.profiles().map(|g| g.iter().map(|p| p.to_string()).collect::<Vec<String>>()).collect::<Vec<_>>(),
+        "text": r.to_string(),
+    }))
+}
+fn rels_struct(r: &debian_control::lossless::relations::Relations) -> Value {
+    guarded(|| json!({
+        "entries": r.entries().map(|e| Value::Array(e.relations().map(|x| rel_struct(&x)).collect())).collect::<Vec<_>>(),
+        "substvars": r.substvars().collect::<Vec<String>>(),
+    }))
+}
+fn lossy_rel_struct(r: &debian_control::lossy::Relation) -> Value {
+    json!({
+        "name": r.name, "archqual": r.archqual,
+        "version": r.version.as_ref().map(|(c, v)| json!([c.to_string(), v.to_string()])),
+        "architectures": r.architectures,
+        "profiles": r.profiles.iter().map(|g| g.iter().map(|p| p.to_string()).collect::<Vec<String>>()).collect::<Vec<_>>(),
+        "text": r.to_string(),
+    })
+}
+
+/// everything C02/C09/C10 observe about one relationship-field text
+fn op_relations(req: &Value) -> Value {
+    use debian_control::lossless::relations::{Entry, Relation, Relations};
+    let text = s(req, "s");
+    let relaxed = |allow: bool| guarded(|| {
+        let (r, errs) = Relations::parse_relaxed(&text, allow);
+        json!({"text": r.to_string(), "nerrors": errs.len(), "structure": rels_struct(&r)})
+    });
+    let r_false = relaxed(false);
+    let r_true = relaxed(true);
+    let strict = guarded(|| match Relations::from_str(&text) {
+        Ok(r) => json!({"ok": true, "text": r.to_string(), "structure": rels_struct(&r)}),
+        Err(e) => json!({"ok": false, "err": e}),
+    });
+    let entry = guarded(|| match Entry::from_str(&text) {
+        Ok(r) => json!({"ok": true, "text": r.to_string()}),
+        Err(e) => json!({"ok": false, "err": e}),
+    });
+    let relation = guarded(|| match Relation::from_str(&text) {
+        Ok(r) => json!({"ok": true, "text": r.to_string(), "structure": rel_struct(&r)}),
+        Err(e) => json!({"ok": false, "err": e}),
+    });
+    let lossy = guarded(|| match debian_control::lossy::Relations::from_str(&text) {
+        Ok(r) => json!({"ok": true, "text": r.to_string(), "entries": r.0.iter().map(|e| Value::Array(e.iter().map(lossy_rel_struct).collect())).collect::<Vec<_>>()}),
+        Err(e) => json!({"ok": false, "err": e}),
+    });
+    let lossy_rel = guarded(|| match debian_control::lossy::Relation::from_str(&text) {
+        Ok(r) => json!({"ok": true, "structure": lossy_rel_struct(&r)}),
+        Err(e) => json!({"ok": false, "err": e}),
+    });
+    json!({"relaxed_false": r_false, "relaxed_true": r_true, "strict": strict, "entry": entry, "relation": relation, "lossy": lossy, "lossy_rel": lossy_rel})
+}
+
+fn okerr<T, E: std::fmt::Display>(r: Result<T, E>) -> Value {
+    match r { Ok(_) => json!({"ok": true}), Err(e) => json!({"ok": false, "err": e.to_string()}) }
+}
+fn okerr_dbg<T, E: std::fmt::Debug>(r: Result<T, E>) -> Value {
+    match r { Ok(_) => json!({"ok": true}), Err(e) => json!({"ok": false, "err": format!("{:?}", e)}) }
+}
+
+/// C02: run one text-parsing entry point; the only observation is "returned Ok/Err" (a panic is caught by the dispatcher)
+fn op_total(req: &Value) -> Value {
+    use debian_control as dc;
+    let t = s(req, "s");
+    let t = t.as_str();
+    let name = s(req, "name");
+    match req["entry"].as_str().unwrap_or("") {
+        "deb822::Deb822::from_str" => okerr(deb822_lossless::Deb822::from_str(t)),
+        "deb822::Deb822::from_str_relaxed" => { let _ = deb822_lossless::Deb822::from_str_relaxed(t); json!({"ok": true}) }
+        "deb822::Paragraph::from_str" => okerr(deb822_lossless::Paragraph::from_str(t)),
+        "deb822::lossy::Deb822::from_str" => okerr(deb822_lossless::lossy::Deb822::from_str(t)),
+        "deb822::lossy::Paragraph::from_str" => okerr(deb822_lossless::lossy::Paragraph::from_str(t)),
+        "control::relations::Relations::from_str" => okerr(dc::lossless::relations::Relations::from_str(t)),
+        "control::relations::Relations::parse_relaxed_false" => { let _ = dc::lossless::relations::Relations::parse_relaxed(t, false); json!({"ok": true}) }
+        "control::relations::Relations::parse_relaxed_true" => { let _ = dc::lossless::relations::Relations::parse_relaxed(t, true); json!({"ok": true}) }
+        "control::relations::Entry::from_str" => okerr(dc::lossless::relations::Entry::from_str(t)),
+        "control::relations::Relation::from_str" => okerr(dc::lossless::relations::Relation::from_str(t)),
+        "control::lossy::Relations::from_str" => okerr(dc::lossy::Relations::from_str(t)),
+        "control::lossy::Relation::from_str" => okerr(dc::lossy::Relation::from_str(t)),
+        "control::lossy::Control::from_str" => okerr(dc::lossy::Control::from_str(t)),
+        "control::lossy::apt::Release::from_str" => match t.parse::<deb822_lossless::lossy::Paragraph>() {
+            Ok(p) => okerr(<dc::lossy::apt::Release as deb822_lossless::FromDeb822Paragraph<deb822_lossless::lossy::Paragraph>>::from_paragraph(&p)),
+            Err(e) => json!({"ok": false, "err": e.to_string()}),
+        },
+        "control::lossy::apt::Source::from_str" => okerr(dc::lossy::apt::Source::from_str(t)),
+        "control::lossy::apt::Package::from_str" => okerr(dc::lossy::apt::Package::from_str(t)),
+        "control::lossy::buildinfo::Buildinfo::from_str" => okerr(dc::lossy::buildinfo::Buildinfo::from_str(t)),
+        "control::lossy::ftpmaster::Removal::from_str" => okerr(dc::lossy::ftpmaster::Removal::from_str(t)),
+        "control::lossless::Control::from_str" => okerr(dc::lossless::Control::from_str(t)),
+        "control::lossless::apt::Source::from_str" => okerr(dc::lossless::apt::Source::from_str(t)),
+        "control::lossless::apt::Package::from_str" => okerr(dc::lossless::apt::Package::from_str(t)),
+        "control::lossless::apt::Release::from_str" => okerr(dc::lossless::apt::Release::from_str(t)),
+        "control::lossless::buildinfo::Buildinfo::from_str" => okerr(dc::lossless::buildinfo::Buildinfo::from_str(t)),
+        "control::changes::Changes::read" => okerr(dc::changes::Changes::read(t.as_bytes())),
+        "control::changes::Changes::read_relaxed" => okerr_dbg(dc::changes::Changes::read_relaxed(t.as_bytes())),
+        "control::changes::File::from_str" => okerr_dbg(dc::changes::File::from_str(t)),
+        "control::pgp::strip_pgp_signature" => okerr_dbg(dc::pgp::strip_pgp_signature(t)),
+        "control::vcs::ParsedVcs::from_str" => okerr_dbg(dc::vcs::ParsedVcs::from_str(t)),
+        "control::vcs::Vcs::from_field" => okerr_dbg(dc::vcs::Vcs::from_field(&name, t)),
+        "control::parse_identity" => okerr_dbg(dc::parse_identity(t)),
+        "control::fields::Priority::from_str" => okerr_dbg(dc::fields::Priority::from_str(t)),
+        "control::fields::Urgency::from_str" => okerr_dbg(dc::fields::Urgency::from_str(t)),
+        "control::fields::MultiArch::from_str" => okerr_dbg(dc::fields::MultiArch::from_str(t)),
+        "control::fields::Md5Checksum::from_str" => okerr_dbg(dc::fields::Md5Checksum::from_str(t)),
+        "control::fields::Sha1Checksum::from_str" => okerr_dbg(dc::fields::Sha1Checksum::from_str(t)),
+        "control::fields::Sha256Checksum::from_str" => okerr_dbg(dc::fields::Sha256Checksum::from_str(t)),
+        "control::fields::Sha512Checksum::from_str" => okerr_dbg(dc::fields::Sha512Checksum::from_str(t)),
+        "control::fields::PackageListEntry::from_str" => okerr_dbg(dc::fields::PackageListEntry::from_str(t)),
+        "control::relations::VersionConstraint::from_str" => okerr_dbg(dc::relations::VersionConstraint::from_str(t)),
+        "control::relations::BuildProfile::from_str" => okerr_dbg(dc::relations::BuildProfile::from_str(t)),
+        "copyright::lossless::Copyright::from_str" => okerr_dbg(debian_copyright::lossless::Copyright::from_str(t)),
+        "copyright::lossless::Copyright::from_str_relaxed" => okerr_dbg(debian_copyright::lossless::Copyright::from_str_relaxed(t)),
+        "copyright::lossy::Copyright::from_str" => okerr_dbg(debian_copyright::lossy::Copyright::from_str(t)),
+        "copyright::License::from_str" => okerr_dbg(debian_copyright::License::from_str(t)),
+        "dep3::lossless::PatchHeader::from_str" => okerr_dbg(dep3::lossless::PatchHeader::from_str(t)),
+        "dep3::lossy::PatchHeader::from_str" => okerr_dbg(dep3::lossy::PatchHeader::from_str(t)),
+        "dep3::Forwarded::from_str" => okerr_dbg(dep3::Forwarded::from_str(t)),
+        "dep3::OriginCategory::from_str" => okerr_dbg(dep3::OriginCategory::from_str(t)),
+        "dep3::Origin::from_str" => okerr_dbg(dep3::Origin::from_str(t)),
+        "dep3::AppliedUpstream::from_str" => okerr_dbg(dep3::AppliedUpstream::from_str(t)),
+        "aptsources::Repositories::from_str" => okerr_dbg(apt_sources::Repositories::from_str(t)),
+        "aptsources::RepositoryType::from_str" => okerr_dbg(apt_sources::RepositoryType::from_str(t)),
+        "aptsources::YesNoForce::from_str" => okerr_dbg(apt_sources::YesNoForce::from_str(t)),
+        "aptsources::Signature::from_str" => okerr_dbg(apt_sources::signature::Signature::from_str(t)),
+        other => json!({"error": format!("unknown entry {}", other)}),
+    }
+}
+
+/// native evaluation of external (non-repository) functions on concretised arguments: url, chrono, debversion, regex
+fn op_ext(req: &Value) -> Value {
+    let t = s(req, "s");
+    match req["fn"].as_str().unwrap_or("") {
+        "url_parse" => match url::Url::parse(&t) { Ok(u) => json!({"ok": true, "text": u.to_string()}), Err(e) => json!({"ok": false, "err": e.to_string()}) },
+        "date_parse" => match chrono::NaiveDate::parse_from_str(&t, &s(req, "fmt")) { Ok(d) => json!({"ok": true, "text": d.to_string()}), Err(e) => json!({"ok": false, "err": e.to_string()}) },
+        "date_format" => match chrono::NaiveDate::parse_from_str(&t, "%Y-%m-%d") { Ok(d) => json!({"ok": true, "text": d.format(&s(req, "fmt")).to_string()}), Err(e) => json!({"ok": false, "err": e.to_string()}) },
+        "version_cmp" => {
+            let a: Result<debversion::Version, _> = t.parse(); let b: Result<debversion::Version, _> = s(req, "t").parse();
+            match (a, b) { (Ok(a), Ok(b)) => json!({"ok": true, "cmp": match a.cmp(&b) { std::cmp::Ordering::Less => -1, std::cmp::Ordering::Equal => 0, std::cmp::Ordering::Greater => 1 }}), _ => json!({"ok": false}) }
+        }
+        other => json!({"error": format!("unknown ext fn {}", other)}),
+    }
 }
